@@ -6,6 +6,7 @@ package explore
 
 import (
 	"fmt"
+	"os"
 	"strings"
 	"time"
 
@@ -29,6 +30,11 @@ type Instance struct {
 	// Check is evaluated after the execution ended (all threads done or quiescent). It returns
 	// a violation description or "".
 	Check func(e *sched.Exec) (sig, msg string, detail any)
+	// CheckPartial is evaluated instead of Check when the execution was cut at an already
+	// explored state: it reports what the execution has established about its own path so far
+	// (an invariant over intermediate global states, which — unlike the final state — is not the
+	// same for all equivalent executions). Scenarios that evaluate sched.OnStep need it.
+	CheckPartial func(e *sched.Exec) (sig, msg string, detail any)
 	// Observe returns a canonical observation of the outcome (distinct-outcome accounting).
 	Observe func() string
 	Cleanup func()
@@ -41,6 +47,10 @@ type Scenario struct {
 	MaxSteps int
 	New      func() *Instance
 	MaxExecs int64 // cap on executions (0 = none); hitting it makes the result non-exhaustive
+	// NoPrune switches the happens-before state cache off for this scenario (validation runs;
+	// scenarios whose Check looks at something that is not invariant under reordering of
+	// independent operations).
+	NoPrune bool
 	// AfterExec, when set, is consulted after every execution that passed Check (e.g. new
 	// race-detector reports attributed to this schedule).
 	AfterExec func(e *sched.Exec) (sig, msg string, detail any)
@@ -64,7 +74,15 @@ type Result struct {
 	MaxTrace   int
 	Infra      string // non-empty: infrastructure problem (replay divergence, overrun)
 	WallS      float64
+	Pruned     int64 // executions cut at a state already explored with at most the same deviations
+	States     int64 // distinct happens-before states stored
 }
+
+// NoPrune (VERIF_NOPRUNE=1) switches the state cache off globally: used to validate that
+// pruning changes neither the set of outcomes nor the set of violations.
+var NoPrune = os.Getenv("VERIF_NOPRUNE") == "1"
+
+type cost struct{ p, f, c int }
 
 // BeforeExec functions run before every execution (reset of package-level state of the code under test).
 var BeforeExec []func()
@@ -94,6 +112,13 @@ func RunOnce(sc *Scenario, prefix []int, logOps bool) (*sched.Exec, *Instance, *
 		return &Violation{Sig: sig, Msg: msg, Detail: detail, Choices: e.Choices(), Schedule: e.Describe(), OpLog: LastOps}
 	}
 	switch {
+	case e.Pruned:
+		// the rest of this execution is equivalent to one explored from the stored state
+		if in.CheckPartial != nil {
+			if sig, msg, detail := in.CheckPartial(e); sig != "" {
+				v = mk(sig, msg, detail)
+			}
+		}
 	case e.Diverged != "" || e.Overrun:
 		// reported by the caller as infrastructure trouble
 	case len(e.Panics) > 0:
@@ -129,6 +154,28 @@ func Explore(sc *Scenario, deadline time.Time) *Result {
 	type item struct{ prefix []int }
 	stack := []item{{nil}}
 	seenSig := map[string]bool{}
+	// state cache: happens-before state key -> non-dominated deviation vectors it was reached with
+	visited := map[sched.Hash][]cost{}
+	sched.VisitHook = nil
+	if !sc.NoPrune && !NoPrune {
+		sched.VisitHook = func(key sched.Hash, p, f, c int) bool {
+			vs := visited[key]
+			for _, v := range vs {
+				if v.p <= p && v.f <= f && v.c <= c {
+					return true
+				}
+			}
+			keep := vs[:0]
+			for _, v := range vs {
+				if !(p <= v.p && f <= v.f && c <= v.c) {
+					keep = append(keep, v)
+				}
+			}
+			visited[key] = append(keep, cost{p, f, c})
+			return false
+		}
+	}
+	defer func() { sched.VisitHook = nil; res.States = int64(len(visited)) }()
 	for len(stack) > 0 {
 		if sc.MaxExecs > 0 && res.Executions >= sc.MaxExecs {
 			res.Capped = true
@@ -159,7 +206,9 @@ func Explore(sc *Scenario, deadline time.Time) *Result {
 		if e.Deadlock {
 			res.Deadlocks++
 		}
-		if in.Observe != nil {
+		if e.Pruned {
+			res.Pruned++
+		} else if in.Observe != nil {
 			res.Outcomes[in.Observe()]++
 		}
 		if v != nil && !seenSig[v.Sig] {
